@@ -581,13 +581,56 @@ def run(ctx):
         if not okp or pos != len(out):
             ctx.fail('property', 'lp._WidthLimitedFile', 'write split', 'output is not the writes with "\\n " inserted between some of them',
                      repro=PRE + f'import io\nbuf = io.StringIO(); f = lp._WidthLimitedFile(buf)\nfor w in {writes!r}: f.write(w)\nprint(repr(buf.getvalue())); assert False\n')
+    # ---- the Lean model of the C++ reader (`lpread`): on every text the specification reader was given (writer output and its
+    # near misses) it must read what the real parser read
+    for i in range(len(lines)):
+        if lines[i].startswith('load ') and isinstance(expect[i], tuple):
+            lines.append('lpread ' + lines[i][5:]); expect.append(expect[i]); meta.append((meta[i][0] + ' [C++ reader model]', meta[i][1]))
+    # ---- hand-style LP texts and their near misses: reference reading (generation data) vs real parser vs reader model
+    from harness.props import c12_hand as H
+    htexts, hexp, hkind = [], [], []
+    for k in range(ctx.scale(700, 12000)):
+        h = H.Hand(r)
+        if not h.bounds_consistent():
+            ctx.tick('hand-style: skipped (lower bound above upper bound: debug assertion of the C++ CQM)')
+            continue
+        t = h.render()
+        htexts.append(t); hexp.append(h.expected()); hkind.append('hand-style')
+        ctx.case(('hand', t), nontrivial=True, sample=dict(text=t[:500]) if k % 211 == 5 else None)
+        for _ in range(r.choice([1, 2])):
+            mt, mk = H.mutate(r, t)
+            if mt != t:
+                htexts.append(mt); hexp.append(None); hkind.append('hand-style near miss: ' + mk)
+                ctx.case(('hand near miss', mt), nontrivial=True)
+    hreal = H.real_batch(htexts)
+    for t, e, kd, real in zip(htexts, hexp, hkind, hreal):
+        ctx.tick(kd + {'ok': '', 'exc': ' (refused)', 'nonfinite': ' (non-finite number read)', 'abort': ' (debug assertion)'}[real[0]])
+        if e is not None and (real[0] != 'ok' or real[1] != e):
+            ctx.fail('correspondence', 'lp.loads (hand-style text)', 'real parser vs reference reading of the generation data',
+                     f'lp.loads gives {real} ; the text denotes {e}', detail=dict(text=t[:1500]))
+        lines.append('lpread ' + t.encode().hex()); expect.append(('HAND', real)); meta.append(('lp.loads (' + kd + ') vs C++ reader model', t))
     got = run_driver('lpdriver', lines)
     ctx.corr_lines += len(lines)
     nbad = 0
     for i, ln in enumerate(lines):
         gl = got[i] if i < len(got) else 'MISSING'
         exp = expect[i]
-        if isinstance(exp, tuple):
+        if isinstance(exp, tuple) and exp[0] == 'HAND':
+            real = exp[1]
+            if gl == 'err unmodelled':
+                ctx.tick('reader model: unmodelled text (nan / hex float / control character / non-finite coefficient)')
+                ok = True
+            elif gl == 'err assertion':
+                ok = real[0] in ('abort', 'ok')          # release builds store the bounds unchecked
+            elif gl == 'err refused':
+                ok = real[0] == 'exc'
+            else:
+                ok = gl.startswith('ok ') and real[0] == 'ok' and parse_model_cqm(gl[3:]) == real[1]
+            if not ok:
+                ctx.fail('correspondence', meta[i][0], 'real parser vs C++ reader model',
+                         f'lp.loads gives {real} ; reader model gives {gl[:400]}', detail=dict(text=meta[i][1][:1500]))
+                nbad += 1
+        elif isinstance(exp, tuple):
             ok = gl.startswith('ok ') and parse_model_cqm(gl[3:]) == exp[1]
             if not ok:
                 ctx.fail('correspondence', meta[i][0], 'real parser vs specification reader',
